@@ -184,6 +184,8 @@ pub struct World {
     pub now: Ns,
     pub wall_base: u64,
     pub wall_offset: i64,
+    /// Some => the wall clock is frozen at this instant (clock fault: the scenario owns the wall clock)
+    pub wall_frozen: Option<u64>,
     seq: u64,
     events: BinaryHeap<Event>,
     timers: Vec<TimerState>,
@@ -250,6 +252,7 @@ impl World {
             now: 0,
             wall_base: 1_700_000_000,
             wall_offset: 0,
+            wall_frozen: None,
             seq: 0,
             events: BinaryHeap::new(),
             timers: Vec::new(),
@@ -304,6 +307,9 @@ impl World {
     }
 
     pub fn wall_secs(&self) -> u64 {
+        if let Some(f) = self.wall_frozen {
+            return f;
+        }
         let t = self.wall_base as i128 + (self.now / SEC) as i128 + self.wall_offset as i128;
         t.clamp(0, 253_402_300_799) as u64
     }
